@@ -552,6 +552,34 @@ func c20Run(w *W) {
 	}
 	rec()
 	w.Count("unmerged_alphabet", int64(len(red)))
+	// many variables: n = 1 … 24 distinct names set, observed, every other one unset, observed, one assigned by an
+	// expansion, one by Eval, observed (map growth, enumeration of more than a handful of entries)
+	for n := 1; n <= 24; n++ {
+		if !w.Mine() {
+			continue
+		}
+		var h []c20Op
+		for i := 0; i < n; i++ {
+			h = append(h, c20Op{Kind: "set", Name: fmt.Sprintf("v%d", i), Val: fmt.Sprint(i)})
+		}
+		h = append(h, c20Op{Kind: "observe"})
+		for i := 0; i < n; i += 2 {
+			h = append(h, c20Op{Kind: "unset", Name: fmt.Sprintf("v%d", i)})
+		}
+		h = append(h, c20Op{Kind: "observe"})
+		for i := n - 1; i >= 0; i -= 3 {
+			h = append(h, c20Op{Kind: "set", Name: fmt.Sprintf("v%d", i), Val: "x"})
+		}
+		h = append(h, c20Op{Kind: "expand", Name: "a", Val: ":=", Text: "${a:=w}"}, c20Op{Kind: "eval", Name: "A", Val: "n=1", Text: "A=1"}, c20Op{Kind: "observe"})
+		c := c20Case{in, h}
+		w.Count("transitions", int64(len(h)))
+		w.Count("evaluations", 1)
+		w.Count("many_variable_histories", 1)
+		w.Count("traces_validated_against_impl", 1)
+		if _, _, bad := c20Replay(c, false); bad != "" {
+			w.Violation("", c, bad)
+		}
+	}
 }
 
 func init() {
